@@ -45,6 +45,10 @@ PROPS = {
     'C16': ('contracts.c16', 'proof',
             'sort/width inference against a typing table, per operator '
             'schema with opaque operands (structural induction)'),
+    'C17': ('contracts.c17', 'proof',
+            'documented identities: schematic instances through the real '
+            'filter/mutations, denotation in z3; constant evaluation '
+            'bounded'),
 }
 
 
